@@ -364,7 +364,10 @@ func resolveRenames(p *Program, rolesPath string) []string {
 				}
 				// same receiver and signature — or a method turned into a function that takes the
 				// receiver as its first parameter (and the reverse)
-				if !(f.Recv == m.Recv && f.Sig == m.Sig) && !methodAsFunc(m, f) && !methodAsFunc(f, m) {
+				// … or the very same identifier kept while receiver and parameter list were reshaped
+				// (a method whose unused receiver was dropped, pointer-to-map parameters turned into maps)
+				base := func(n string) string { return n[strings.LastIndex(n, ".")+1:] }
+				if !(f.Recv == m.Recv && f.Sig == m.Sig) && !methodAsFunc(m, f) && !methodAsFunc(f, m) && base(f.Name) != base(m.Name) {
 					continue
 				}
 				fc, fe := canon(f.Callers), canon(f.Callees)
